@@ -65,7 +65,7 @@ class C15(Prop):
         out.append(case("if (n) { n++; } else { n = 1; } return [n, 1];", [enc_value([1, 1]), enc_value([2, 1]), enc_value([3, 1])], "counter", runs=3))
         out.append(case("x = 70000; x++; return [x, 70000];", [enc_value([70001, 70000])] * 3, "pool-constant", runs=3))
         # random sequences of copies and mutations: the model has value semantics, so any sharing shows up as a disagreement
-        for _ in range(4000 if tier == "thorough" else 400):
+        for _ in range(30000 if tier == "thorough" else 400):
             out.append(Case("run", {"script": vlib.hx(alias_program(rng)), "objs": "N",
                                     "ops": ";".join(["prepare:" + rng.choice(["opt", "noopt"])] + ["exec:0"] * rng.choice([1, 2, 3]) +
                                                     ["getvar:" + vlib.hx(v) for v in ("a", "b", "c", "prev")])}, "alias-sequences"))
